@@ -74,10 +74,11 @@ def verif_hash():
 
 
 def geo_data(tier, seed, inputs=None, name="geo", opts=1 | 2 | 8, flags=8, profile="debug", use_cache=True, extra_env=None):
-    wd = os.path.join(C.CACHE, "run", name)
-    os.makedirs(wd, exist_ok=True)
+    cdir = os.path.join(C.CACHE, "run", name)
+    os.makedirs(cdir, exist_ok=True)
+    wd = C.rundir(name)
     key = f"{C.repo_hash()}_{verif_hash()}_{seed}_{tier}_{opts}_{flags}_{profile}"
-    cache = os.path.join(wd, f"{name}_{key}.pkl")
+    cache = os.path.join(cdir, f"{name}_{key}.pkl")
     if use_cache and inputs is None and os.path.exists(cache):
         try:
             return _register_missing(pickle.load(open(cache, "rb")))
@@ -130,10 +131,15 @@ def geo_data(tier, seed, inputs=None, name="geo", opts=1 | 2 | 8, flags=8, profi
         recs.append(rec)
     data = {"recs": recs, "t_impl": t_impl, "t_model": t_model, "n_jobs": len(jobs)}
     if not custom and use_cache:
-        for fn in os.listdir(wd):
-            if fn.startswith(name + "_") and fn.endswith(".pkl"):
-                os.remove(os.path.join(wd, fn))
-        pickle.dump(data, open(cache, "wb"))
+        for fn in os.listdir(cdir):
+            if fn.startswith(name + "_") and fn.endswith(".pkl") and tier in fn:
+                try:
+                    os.remove(os.path.join(cdir, fn))
+                except OSError:
+                    pass
+        tmp = cache + ".%d.tmp" % os.getpid()
+        pickle.dump(data, open(tmp, "wb"))
+        os.replace(tmp, cache)
     return _register_missing(data)
 
 
